@@ -40,7 +40,13 @@ fn build_elems(elems: &Value) -> Vec<InMemElement> {
             let tag = Tag(j_usize(&a[0]) as u16, j_usize(&a[1]) as u16);
             let vr = VR::from_str(j_str(&e["vr"])).unwrap();
             let items: Vec<Vec<u8>> = j_arr(&e["v"]).iter().map(j_bytes).collect();
-            let value = DValue::Primitive(build_value(vr, &items));
+            // form "str": one single string, as DataElement::new(tag, vr, "text") builds it
+            let pv = if e.get("form").and_then(|f| f.as_str()) == Some("str") && items.len() == 1 && matches!(vr, VR::UI | VR::AE | VR::LO) {
+                PrimitiveValue::Str(String::from_utf8(items[0].clone()).expect("ascii"))
+            } else {
+                build_value(vr, &items)
+            };
+            let value = DValue::Primitive(pv);
             // declared header length: exact (DataElement::new) or whatever the case says
             match e.get("decl").and_then(|d| d.as_str()) {
                 None | Some("exact") => DataElement::new(tag, vr, value),
@@ -170,7 +176,8 @@ fn run_random(n: usize, out: &str) {
                     3 => ("other", r.below(80) as i64),
                     _ => ("undef", -1),
                 };
-                json!({"tag": [0, e], "vr": vr, "v": items.iter().map(|b| bytes_json(b)).collect::<Vec<_>>(), "decl": decl, "dlen": dlen})
+                let form = if items.len() == 1 && matches!(vr, "UI" | "AE" | "LO") && r.coin() { "str" } else { "plain" };
+                json!({"tag": [0, e], "vr": vr, "v": items.iter().map(|b| bytes_json(b)).collect::<Vec<_>>(), "decl": decl, "dlen": dlen, "form": form})
             })
             .collect();
         let elems = Value::Array(elems);
